@@ -59,7 +59,7 @@ endif
 PIXMAN_OBJS := $(addprefix $(B)/pixman/,$(PIXMAN_SRCS:.c=.o))
 # small-scope glyph tables (hook H4) and short scanline buffers (hook H5)
 GLYPH_SMALL_OBJS := $(B)/pixman-small/pixman-glyph-16.o $(B)/pixman-small/pixman-glyph-64.o
-CORE_SRCS   := sim.c arena.c wrapalloc.c chains.c digest.c
+CORE_SRCS   := sim.c arena.c wrapalloc.c chains.c digest.c machine.c gen.c
 CORE_OBJS   := $(addprefix $(B)/core/,$(CORE_SRCS:.c=.o))
 
 WRAP := -Wl,--wrap=malloc,--wrap=calloc,--wrap=realloc,--wrap=free
